@@ -37,7 +37,8 @@ VARIABLES cfg,      \* [iv |-> interval > 0, nowFlag |-> BOOLEAN, wc |-> BOOLEAN
 
 vars == <<cfg, now, run, inner, base, due, lastDone, missed, fuzzy, nreset, lc, ncalls, sumc, sd, last>>
 
-Behs == {"ret", "raise", "defer"}
+\* what the function does when called; "stop..." = it first calls stop() on the loop itself
+Behs == {"ret", "raise", "defer", "stopret", "stopraise", "stopdefer"}
 
 NoCall == [t |-> -1, cnt |-> 0, beh |-> "none", due |-> 0, base |-> 0, prevDone |-> -1, prevNow |-> -1,
            nsd |-> 0, ovl |-> FALSE, rb |-> FALSE]
@@ -73,6 +74,14 @@ CallEff(t, cnt, bh, b, dueWas, rb) ==
                             /\ run' = "failed" /\ sd' = Append(sd, "fail")
          [] bh = "defer" -> /\ lastDone' = lastDone /\ due' = due /\ inner' = TRUE
                             /\ run' = "running" /\ sd' = sd
+         [] bh = "stopret" -> /\ lastDone' = t /\ due' = due /\ inner' = FALSE
+                              /\ run' = "stopped" /\ sd' = Append(sd, "self")
+         [] bh = "stopraise" -> /\ lastDone' = t /\ due' = due /\ inner' = FALSE
+                                /\ \/ (run' = "stopped" /\ sd' = Append(sd, "self"))
+                                   \/ (run' = "failed" /\ sd' = Append(sd, "fail"))
+         [] bh = "stopdefer" -> /\ lastDone' = lastDone /\ due' = due /\ inner' = TRUE
+                                /\ \/ (run' = "stopreq" /\ sd' = sd)
+                                   \/ (run' = "stopped" /\ sd' = Append(sd, "self"))
 
 NewSd == SubSeq(sd', Len(sd) + 1, Len(sd'))
 Obs(t, cnt, bh) == << [t |-> t, c |-> cnt, b |-> bh] >>
